@@ -238,6 +238,19 @@ func (nak *NesterAccountKeeper) SetAccount(account EthAccount) error {
 func (nak *NesterAccountKeeper) RemoveAccount(account EthAccount) {
 	prefixKey := append(nak.prefix, account.Address.Bytes()...)
 	nak.state.Delete(prefixKey)
+
+	// the balance is kept in the balance store (see SetAccount): without this write the record of a
+	// self-destructed contract keeps the amount that was already paid out to its beneficiary
+	stored, err := nak.getOrCreateCurrencyBalance(account.Address, nil)
+	if err != nil || account.Coins.Amount == nil {
+		return
+	}
+	if stored.Amount.BigInt().Cmp(account.Coins.Amount.BigInt()) != 0 {
+		err = nak.balances.SetBalance(account.Address, Coin{Currency: stored.Currency, Amount: account.Coins.Amount})
+		if err != nil {
+			nak.logger.Error("Failed to set balance of removed account", account.Address, err)
+		}
+	}
 }
 
 func (nak *NesterAccountKeeper) GetNonce(addr keys.Address) uint64 {
